@@ -1,6 +1,7 @@
 package sim
 
 import (
+	"crypto/sha256"
 	"fmt"
 	"os"
 	"path/filepath"
@@ -143,6 +144,7 @@ func RunComp(t *testing.T, in *RunInput) {
 	os.Chdir(in.JobDir)
 	stats.Init()
 	hashes := map[string]bool{}
+	nIter := 0
 	pairs := map[string]bool{}
 	var samples []any
 	for i := 0; i < iters; i++ {
@@ -205,7 +207,12 @@ func RunComp(t *testing.T, in *RunInput) {
 		for _, p := range k.PairList() {
 			pairs[p] = true
 		}
-		hashes[k.HashHex()] = true
+		nIter++
+		if k.Events() == 0 {
+			hashes[fmt.Sprintf("tape-%x", sha256.Sum256([]byte(fmt.Sprint(tape.Rec))))] = true
+		} else {
+			hashes[k.HashHex()] = true
+		}
 		if len(samples) < 2 {
 			cs.sample["iter"] = i
 			cs.sample["steps"] = k.Steps()
@@ -242,7 +249,7 @@ func RunComp(t *testing.T, in *RunInput) {
 		hl = append(hl, h)
 	}
 	rec.Summary["iter_hashes"] = hl
-	rec.Summary["iterations"] = len(hashes)
+	rec.Summary["iterations"] = nIter
 	rec.Summary["samples"] = samples
 	for p := range pairs {
 		rec.PairList = append(rec.PairList, p)
